@@ -88,6 +88,7 @@ type env struct {
 	qh        *api.QueryHandler
 	app       *fiber.App
 	rec       *recorder
+	testErrs  int
 }
 
 func must(err error) {
@@ -177,7 +178,12 @@ func (e *env) do(method, target, hdr string, body []byte) outcome {
 		req.Header.Set("x-arc-database", hdr)
 	}
 	resp, err := e.app.Test(req, -1)
-	must(err)
+	if err != nil {
+		// fiber's in-memory test transport occasionally fails to re-parse a streamed response; the
+		// request itself ran. Reported as status 599 (tagged by the caller), never as a verdict.
+		e.testErrs++
+		return outcome{endpoint: target, status: 599, errText: "test-transport: " + err.Error(), checked: e.rec.take()}
+	}
 	b, _ := io.ReadAll(resp.Body)
 	resp.Body.Close()
 	o := outcome{endpoint: target, status: resp.StatusCode, body: b, checked: e.rec.take()}
